@@ -30,7 +30,7 @@ MANIFEST = {
             "permuted haystack}. For each: compute_neighbors (membership of clearly-inside / clearly-outside atoms, "
             "haystack order, no duplicates, no self-only hits), compute_neighborlist on each frame (membership, "
             "symmetric, irreflexive, duplicate-free) and md.compute_distances on all pairs are compared with float64 "
-            "minimum-image distances over +-3 images around the rounded displacement. Right level: the voxel range "
+            "minimum-image distances over +-R images around the rounded displacement (R measured per cell). Right level: the voxel range "
             "arithmetic is a finite case analysis over where an atom sits relative to voxel/cell boundaries; the design "
             "puts an input on each side of each such boundary.",
     "note": "Bounded: n <= 64, images within +-2 cells, cutoff never above half the smallest width of the cell as given; "
@@ -43,6 +43,7 @@ MANIFEST = {
 from vlib import grids
 from vlib.refmodels import mic
 from vlib.refmodels import nbr_design as nd
+from vlib.refmodels.image_design import needed_R, measure_radii, _RC
 
 MARGIN = 1e-5
 CUTFRACS = (0.05, 0.25, 0.5)
@@ -251,7 +252,7 @@ def _subset(name, n):
     raise ValueError(name)
 
 
-def _oracle(xyz32, ucv, ortho):
+def _oracle(xyz32, ucv, R):
     """float64 minimum-image distances (F,n,n) and straddle flags (minimum image != plain difference), computed
     from the stored float32 coordinates and the stored cell vectors of each frame."""
     x = np.asarray(xyz32, np.float64)
@@ -267,7 +268,7 @@ def _oracle(xyz32, ucv, ortho):
             d = np.sqrt((disp[f] * disp[f]).sum(1))
             st = np.zeros(len(d), bool)
         else:
-            d, _b, nb = mic.min_image(disp[f], np.asarray(ucv[f], np.float64), 2 if ortho else 3)
+            d, _b, nb = mic.min_image(disp[f], np.asarray(ucv[f], np.float64), R)
             st = np.any(nb != 0, axis=1)
         D[f][iu] = d
         D[f].T[iu] = d
@@ -304,7 +305,7 @@ def run_case(arg):
         recs.append((sig, "%s cell=%s cutoff=%.6g n=%d design=%s/%d frame=%d subset=%s: %s" % (
             api, cell["name"] if cell else None, cutoff, n, design, variant, f, subset, detail), rp))
 
-    D, S = _oracle(t.xyz, ucv, cell is not None and cell["ortho"])
+    D, S = _oracle(t.xyz, ucv, None if cell is None else needed_R(np.asarray(ucv[0], np.float64), cell["name"]))
     off = ~np.eye(n, dtype=bool)
     AMB = (np.abs(D - cutoff) < MARGIN) & off
     CIN = (D < cutoff - MARGIN) & off
@@ -429,6 +430,7 @@ def run_case(arg):
 def run(ctx):
     quick = ctx.quick
     cs = cases(quick)
+    measure_radii(ctx, _menu(quick), lambda c: _stored_vectors(c, 1.0))     # search radius each cell needs (cached)
     order = sorted(range(len(cs)), key=lambda i: -(cs[i][2] ** 2) * (cs[i][5] - cs[i][4]))   # big items first
     res_o = ctx.pmap(run_case, [(cs[i], quick, ctx.seed) for i in order], chunksize=1)
     res = [None] * len(cs)
@@ -451,8 +453,9 @@ def run(ctx):
         if st["sample"] and len(samples) < 4 and all(s["design"] != st["sample"]["design"] for s in samples):
             samples.append(st["sample"])
     menu = _menu(quick)
-    ctx.assume("float64 brute-force minimum image over +-3 images (orthorhombic: +-2) around the rounded displacement is "
-               "the true minimum for the menu cells (incl. unreduced forms)")
+    ctx.assume("float64 brute-force minimum image over +-R images around the rounded displacement is the true minimum; R per "
+               "cell shape is the smallest radius reproducing R=4 on a 17^3 grid of the fractional residual cube "
+               "(measured: %s)" % sorted(_RC.items()))
     cov = {
         "evaluations": tot["evals"],
         "distinct_nontrivial": len(nontrivial),
